@@ -241,6 +241,17 @@ func (matrix *DenseInt32Matrix) Tip() {
   matrix.rowMax, matrix.colMax = matrix.colMax, matrix.rowMax
 }
 func (matrix *DenseInt32Matrix) AsVector() Vector {
+  if matrix.rows*matrix.cols != len(matrix.values) {
+    // the matrix is a slice of a larger matrix, copy its elements
+    n, m := matrix.Dims()
+    v := make([]int32, n*m)
+    for i := 0; i < n; i++ {
+      for j := 0; j < m; j++ {
+        v[i*m + j] = matrix.values[matrix.index(i, j)]
+      }
+    }
+    return DenseInt32Vector(v)
+  }
   return DenseInt32Vector(matrix.values)
 }
 func (matrix *DenseInt32Matrix) storageLocation() uintptr {
@@ -334,6 +345,17 @@ func (matrix *DenseInt32Matrix) IsSymmetric(epsilon float64) bool {
   return true
 }
 func (matrix *DenseInt32Matrix) AsConstVector() ConstVector {
+  if matrix.rows*matrix.cols != len(matrix.values) {
+    // the matrix is a slice of a larger matrix, copy its elements
+    n, m := matrix.Dims()
+    v := make([]int32, n*m)
+    for i := 0; i < n; i++ {
+      for j := 0; j < m; j++ {
+        v[i*m + j] = matrix.values[matrix.index(i, j)]
+      }
+    }
+    return DenseInt32Vector(v)
+  }
   return DenseInt32Vector(matrix.values)
 }
 /* implement ScalarContainer
